@@ -155,17 +155,92 @@ def _prefix():
     return _NFLOWS_PREFIX
 
 
+_MON_TOOL = 3
+_MON_READY = False
+
+
+def _instrument_nflows():
+    """Instruction-level interruption points (thorough tier): sys.monitoring
+    INSTRUCTION events on every code object defined under $VERIF_REPO/nflows.
+    (settrace 'opcode' events only arrive from the second traced execution of a
+    code object on 3.12, which would make the schedule depend on process history;
+    monitoring events arrive from the first execution and the count per call was
+    measured to be independent of warm-up.)"""
+    global _MON_READY
+    if _MON_READY:
+        return
+    import types
+
+    for m in ("nflows.transforms", "nflows.distributions", "nflows.flows", "nflows.nn.nets", "nflows.nn.nde", "nflows.utils"):
+        __import__(m)
+    pre = _prefix()
+    codes = set()
+
+    def walk(code):
+        if code in codes:
+            return
+        codes.add(code)
+        for c in code.co_consts:
+            if isinstance(c, types.CodeType):
+                walk(c)
+
+    def fn_code(f):
+        if isinstance(f, (staticmethod, classmethod)):
+            f = f.__func__
+        if isinstance(f, types.FunctionType) and f.__code__.co_filename.startswith(pre):
+            walk(f.__code__)
+
+    for name, mod in sorted(sys.modules.items()):
+        f = getattr(mod, "__file__", None)
+        if not f or not f.startswith(pre):
+            continue
+        for obj in list(vars(mod).values()):
+            if isinstance(obj, type):
+                for v in list(vars(obj).values()):
+                    if isinstance(v, property):
+                        for g in (v.fget, v.fset, v.fdel):
+                            if g is not None:
+                                fn_code(g)
+                    else:
+                        fn_code(v)
+            else:
+                fn_code(obj)
+    mon = sys.monitoring
+    mon.use_tool_id(_MON_TOOL, "nflows-dst")
+    for c in codes:
+        mon.set_local_events(_MON_TOOL, c, mon.events.INSTRUCTION)
+    _MON_READY = True
+
+
 def call_interruptible(fn, k, opcode=False):
-    """Run fn(); raise Interrupt inside the k-th traced event of an nflows
-    frame.  Returns (fired, events_seen, result).  k=None: plain call."""
+    """Run fn(); raise Interrupt inside the k-th event of an nflows frame (line
+    events through sys.settrace, or instruction events through sys.monitoring).
+    Returns (fired, events_seen, result).  k=None: plain call."""
     if not k:
         return False, 0, fn()
-    pre = _prefix()
     box = {"n": 0, "fired": False}
-    want = "opcode" if opcode else "line"
+    if opcode:
+        _instrument_nflows()
+        mon = sys.monitoring
+
+        def on_instruction(code, offset):
+            box["n"] += 1
+            if box["n"] == k:
+                box["fired"] = True
+                raise Interrupt()
+
+        mon.register_callback(_MON_TOOL, mon.events.INSTRUCTION, on_instruction)
+        try:
+            res = fn()
+        except Interrupt:
+            return True, box["n"], None
+        finally:
+            mon.register_callback(_MON_TOOL, mon.events.INSTRUCTION, None)
+        return False, box["n"], res
+    pre = _prefix()
 
     def local(frame, event, arg):
-        if event == want:
+        if event == "line":
             box["n"] += 1
             if box["n"] == k:
                 box["fired"] = True
@@ -174,8 +249,6 @@ def call_interruptible(fn, k, opcode=False):
 
     def glob(frame, event, arg):
         if frame.f_code.co_filename.startswith(pre):
-            if opcode:
-                frame.f_trace_opcodes = True
             return local
         return None
 
